@@ -9,7 +9,7 @@ F7_WHAT = "empty control-point list computed on buffers that hold a previous pat
 class C16(Property):
     id = "C16"
     lean_module = "RosuModel.Props.C16Full"   # imports Props/C16Surplus.lean (→ Props/C16Exact.lean → Props/C16.lean) and Props/C16Ieee.lean; all in namespace Rosu.C16
-    theorem_modules = ['RosuModel.Props.C16Surplus', 'RosuModel.Props.C16Ieee', 'RosuModel.Props.C16IeeeLen', 'RosuModel.Props.C16IeeeAdj', 'RosuModel.Props.C16IeeeAdjWitness']   # files whose top-level theorems are all audited
+    theorem_modules = ['RosuModel.Props.C16Surplus', 'RosuModel.Props.C16Ieee', 'RosuModel.Props.C16IeeeLen', 'RosuModel.Props.C16IeeeAdj', 'RosuModel.Props.C16IeeeAdjWitness', 'RosuModel.Props.C16IeeeBezierDiverge']   # files whose top-level theorems are all audited
     namespace = "Rosu.C16"
     design_ref = "5.16"
     level_text = (
@@ -43,7 +43,8 @@ class C16(Property):
         "Model tied to the code bit-for-bit on every run; IEEE finiteness, monotonicity of what calculate_length returns after a cut / extension, and the float-level geometry are evaluated on the real code by an "
         "oracle written from the property text.")
     technique = "Lean 4 proof (case analysis of the mirrored control flow, generic arithmetic) + bit-exact differential correspondence"
-    required_theorems = ["calculateLength_some", "calculateLength_total", "lengths_head_zero", "dist_exact", "cut_shape",
+    required_theorems = ["bsplineLoop_diverges_float32", "curve_new_diverges_float32", "curve_new_never_ok_float32", "stuck_not_flat", "stuck_left_half", "stuck_beyond_decode_range",
+                         "calculateLength_some", "calculateLength_total", "lengths_head_zero", "dist_exact", "cut_shape",
                          "lastValid_spec", "dist_zero_when_nothing_below", "dist_natural_when_near", "dist_natural_when_none",
                          "natural_dist", "natTotal_eq_fold", "single_point_keeps", "equal_tail_keeps_natural", "equal_tail_dist",
                          "lengths_path_aligned", "new_is_calculateLength", "new_lengths_head_zero", "lengths_monotone", "monoLaws_int",
@@ -63,6 +64,14 @@ class C16(Property):
                          "cumLens_eq_runSums", "runSums_mono", "runSums_mono_nonneg", "lengths_monotone_ieee", "lengths_monotone_float",
                          "lengths_monotone_float_nonneg", "natLens_monotone_ieee", "natLens_monotone_float"]
     partial_theorems = {
+        "totality of Curve::new on finite control points (the property's quantifier 'for every control-point list with finite coordinates')":
+            "FALSE for IEEE single precision, kernel-checked (Props/C16IeeeBezierDiverge.lean, sixth session; finding F23): curve_new_never_ok_float32 - the three finite control points "
+            "(8388609,0) (8388610,0) (8388610,0) typed Bezier (or perfect curve: collinear, falls back) admit NO fuel on which the model's Curve.new returns a curve, in any mode, for any requested length "
+            "and any well-formed scratch buffers: the piece is not flat (stuck_not_flat: second difference 1 > 0.5) and is its own left half under de Casteljau subdivision in f32 (stuck_left_half, stuck_mid: "
+            "the tie 16777219 rounds to even), so the loop turns forever (bsplineLoop_turns, bsplineLoop_diverges_float32; generic form StuckPiece.*); a second witness in two dimensions one binade "
+            "lower (stuck2_isStuck, 4194304.5) and stuck_shape_flat_below (the same shape at 2^21 is flat). The real crate does not return on this input (replay `curve 0 - 4b000001:0:B 4b000002:0:- 4b000002:0:-`, "
+            "corpus/C16/f23.case). stuck_beyond_decode_range: the witness lies beyond what a decoded file can produce (262144). All other theorems of this property are about the value Curve::new "
+            "returns WHEN it returns (model outcome .ok); the fuel outcome is this finding",
         "lengths_monotone": "exact arithmetic: for every scalar satisfying ExactArith (instances Rat, reals; also the older MonoLaws on Int), both for the natural running sums (lengths_monotone) and for what calculate_length returns in all five outcomes (calculateLength_lengths_monotone, hypothesis optimized_len >= 0) and, with sqrt a square root (SqrtLaws; reals), for every curve Curve::new builds (new_lengths_monotone via surplus_nonneg = catmullSimplify_surplus_nonneg / calculatePath_optLen_nonneg). "
             "MonoLaws itself is FALSE of the driver's instances (le_add fails for a = NaN: Rosu.IeeeFalse.monoLaws_float_false, Props/IeeeFalse.lean, audited under C02), so those theorems are vacuous on IEEE. "
             "IEEE arithmetic (Props/C16Ieee.lean — in Lean 4.33 Float / Float32 are structures over the logical model Float.Model, so `+`, `<=`, isNaN reduce in the kernel; Lemmas/FloatModelValue.lean, FloatModelRound.lean "
